@@ -3,6 +3,7 @@
 //! note: get_route after the search (router.rs steps 4-8): when the search for further paths stops (never while a pass at the most permissive saturation setting is untried, never before the requested amount is collected unless a pass found nothing); failure is reported only with no path or too little collected; the overpayment is removed without leaving a superfluous part: whole paths are dropped only while their value fits into the overpayment and never the last one, every path kept is worth more than what is still overpaid, so the most expensive path can be reduced by exactly the rest; merging two identical paths keeps their joint value; a path's value is never raised above the requested amount nor above what it can carry; the fee cap is applied to the finished route
 //! trusted: R15 (deep slices of get_route): each slice carries the named statements verbatim as a function of the variables they read; PaymentPath is a skeleton holding its value (get_value_msat answers it; update_value_and_recompute_fees is the recorder of the value asked for - its own contract, value >= asked, is u16's); `break 'paths_collection` / `continue 'paths_collection` are written as the returned decision
 //! trusted: R6e (by hand, closure body carried through captures): `selected_route.retain(|path| { if $last:cond { return true } let path_value_msat = path.get_value_msat(); if COND { UPDATES return false; } true })` as an index loop with the same test and updates
+//! trusted: R6 (by hand, closure body carried through a capture): `hops.iter_mut().rev().fold(INIT, |prev_cltv_expiry_delta, hop| { BODY })` as a descending index loop `acc = BODY` with `hop = &mut hops[i]`; assume_specification for core::mem::replace (std definition); PathBuildingHop / RouteHop / NodeFeatures are skeletons with the fields the statements touch (clone returns an equal value)
 //! trusted: assume_specification for core::cmp::max / core::cmp::min (std definitions): present in every unit so that a change that introduces them is verified instead of being rejected by the tool
 use vstd::prelude::*;
 verus! {
@@ -219,6 +220,80 @@ pub enum Next { Stop, Again }
     cmp::max(max_path_contribution_msat, final_value_msat)
 //@end
 
+
+// ---- step (3): walking the found path from the payer: each hop's fee_msat is what the NEXT hop charges, the last hop's is the value delivered ----
+pub assume_specification<T> [core::mem::replace::<T>] (dest: &mut T, src: T) -> (r: T) ensures r == *old(dest), *final(dest) == src;
+pub struct NodeFeatures { pub id: u64 }
+impl Clone for NodeFeatures { #[verifier::external_body] fn clone(&self) -> (r: Self) ensures r == *self { unimplemented!() } }
+pub struct PathBuildingHop { pub candidate: u64, pub fee_msat: u64, pub hop_use_fee_msat: u64, pub next_hops_fee_msat: u64, pub total_fee_msat: u64 }
+impl Clone for PathBuildingHop { #[verifier::external_body] fn clone(&self) -> (r: Self) ensures r == *self { unimplemented!() } }
+//@extract lightning/src/routing/router.rs :: fn get_route
+//@slice R15
+    ordered_hops.last_mut().unwrap().0.fee_msat = $fee:seq; ordered_hops.push($pushed:seq); }
+//@with
+    fn walk_one_hop_further(ordered_hops: &mut Vec<(PathBuildingHop, NodeFeatures)>, new_entry: &PathBuildingHop, default_node_features: &NodeFeatures) {
+        ordered_hops.last_mut().unwrap().0.fee_msat = $fee; ordered_hops.push($pushed); }
+//@requires
+    old(ordered_hops)@.len() > 0,
+//@ensures P C16 the-fee-a-hop-of-the-route-carries-is-the-fee-the-next-hops-channel-charges-fees-are-propagated-one-hop-towards-the-payer
+    final(ordered_hops)@.len() == old(ordered_hops)@.len() + 1,
+    final(ordered_hops)@.last().0 == *new_entry,
+    final(ordered_hops)@[old(ordered_hops)@.len() - 1].0 == (PathBuildingHop { fee_msat: new_entry.hop_use_fee_msat, ..old(ordered_hops)@.last().0 }),
+    final(ordered_hops)@.take(old(ordered_hops)@.len() - 1) == old(ordered_hops)@.drop_last(),
+//@mutant hop_carries_its_own_channels_fee
+    ordered_hops.last_mut().unwrap().0.fee_msat = new_entry.hop_use_fee_msat;
+//@with
+    ordered_hops.last_mut().unwrap().0.fee_msat = ordered_hops.last().unwrap().0.hop_use_fee_msat;
+//@end
+//@extract lightning/src/routing/router.rs :: fn get_route
+//@slice R15
+    ordered_hops.last_mut().unwrap().0.fee_msat = value_contribution_msat; $rest:straight let mut payment_path = PaymentPath {hops: ordered_hops};
+//@with
+    fn last_hop_delivers_the_value(ordered_hops: &mut Vec<(PathBuildingHop, NodeFeatures)>, value_contribution_msat: u64) {
+        ordered_hops.last_mut().unwrap().0.fee_msat = value_contribution_msat; $rest }
+//@requires
+    old(ordered_hops)@.len() > 0,
+//@ensures P C16 the-last-hop-of-a-found-path-carries-the-value-delivered-and-charges-nothing-for-a-further-hop
+    final(ordered_hops)@.len() == old(ordered_hops)@.len(), final(ordered_hops)@.drop_last() == old(ordered_hops)@.drop_last(),
+    final(ordered_hops)@.last().0 == (PathBuildingHop { fee_msat: value_contribution_msat, hop_use_fee_msat: 0, ..old(ordered_hops)@.last().0 }),
+    final(ordered_hops)@.last().1 == old(ordered_hops)@.last().1,
+//@mutant last_hops_use_fee_kept
+    ordered_hops.last_mut().unwrap().0.hop_use_fee_msat = 0;
+//@with
+    ordered_hops.last_mut().unwrap().0.hop_use_fee_msat += 0;
+//@end
+
+// ---- step (8): the route's hops: each hop's CLTV delta is the one its NEXT hop's channel requires, the last hop's is the final delta ----
+pub struct RouteHop { pub short_channel_id: u64, pub fee_msat: u64, pub cltv_expiry_delta: u32 }
+//@extract lightning/src/routing/router.rs :: fn get_route
+//@slice R15
+    hops.iter_mut().rev().fold($init:seq, |prev_cltv_expiry_delta, hop| { $body:seq });
+//@with
+    fn propagate_cltv_deltas_one_hop_backwards(hops: &mut Vec<RouteHop>, final_cltv_delta: u32) {
+        let ghost orig = hops@;
+        let mut acc: u32 = $init;
+        let mut i: usize = hops.len();
+        while i > 0
+            invariant i <= hops@.len(), hops@.len() == orig.len(),
+                acc == (if i == orig.len() { final_cltv_delta } else { orig[i as int].cltv_expiry_delta }),
+                forall|k: int| 0 <= k < i ==> hops@[k] == orig[k],
+                forall|k: int| i <= k < orig.len() ==> #[trigger] hops@[k] == (RouteHop { cltv_expiry_delta: if k + 1 == orig.len() { final_cltv_delta } else { orig[k + 1].cltv_expiry_delta }, ..orig[k] }),
+            decreases i,
+        {
+            i -= 1;
+            let prev_cltv_expiry_delta = acc;
+            let hop = &mut hops[i];
+            acc = { $body };
+        }
+    }
+//@ensures P C16 every-hop-of-a-returned-path-is-given-the-cltv-delta-its-next-hops-channel-requires-and-the-last-hop-the-final-delta-nothing-else-about-the-hops-changes
+    final(hops)@.len() == old(hops)@.len(),
+    forall|k: int| 0 <= k < old(hops)@.len() ==> #[trigger] final(hops)@[k] == (RouteHop { cltv_expiry_delta: if k + 1 == old(hops)@.len() { final_cltv_delta } else { old(hops)@[k + 1].cltv_expiry_delta }, ..old(hops)@[k] }),
+//@mutant cltv_deltas_not_shifted
+    core::mem::replace(&mut hop.cltv_expiry_delta, prev_cltv_expiry_delta)
+//@with
+    core::mem::replace(&mut hop.cltv_expiry_delta, hop.cltv_expiry_delta)
+//@end
 // ---- the fee cap is applied to the finished route ----
 //@extract lightning/src/routing/router.rs :: fn get_route
 //@slice R15
